@@ -224,7 +224,13 @@ func raceScenarios(tier string) []*Scenario {
 	add(&raceScenario{name: "exec||exec", threads: [][][]string{tx, tx}})
 	add(&raceScenario{name: "watch-exec||writers", threads: [][][]string{{{"WATCH", "ks", "kl"}, {"MULTI"}, {"INCR", "ks"}, {"EXEC"}}, {{"SET", "ks", "5"}}, {{"RPUSH", "kl", "w"}}}})
 	add(&raceScenario{name: "blocked||unblock||push", threads: [][][]string{{{"BLPOP", "kb", "0"}}, {{"CLIENT", "UNBLOCK", "$id0"}}, {{"RPUSH", "kb", "x"}}}})
-	add(&raceScenario{name: "blocked||kill||list", threads: [][][]string{{{"BLPOP", "kb", "0"}}, {{"CLIENT", "KILL", "ID", "$id0"}}, {{"CLIENT", "LIST"}}}})
+	add(&raceScenario{name: "blocked||kill", threads: [][][]string{{{"BLPOP", "kb", "0"}}, {{"CLIENT", "KILL", "ID", "$id0"}}}})
+	add(&raceScenario{name: "blocked||list", threads: [][][]string{{{"BLPOP", "kb", "0"}}, {{"CLIENT", "LIST"}}}})
+	if tier == "thorough" {
+		// (three busy threads with spin-wait loops: too many schedules for the quick tier's time)
+		add(&raceScenario{name: "blocked||list||list", threads: [][][]string{{{"BLPOP", "kb", "0"}}, {{"CLIENT", "LIST"}}, {{"CLIENT", "LIST"}}}})
+		add(&raceScenario{name: "blocked||kill||list", threads: [][][]string{{{"BLPOP", "kb", "0"}}, {{"CLIENT", "KILL", "ID", "$id0"}}, {{"CLIENT", "LIST"}}}})
+	}
 	// connections in different databases: whatever they share is not protected by either database's lock
 	add(&raceScenario{name: "db0:BLPOP||db1:BLPOP||pushes", threads: [][][]string{{{"BLPOP", "kb", "0.01"}}, {{"SELECT", "1"}, {"BLPOP", "kb", "0.01"}}, {{"RPUSH", "kb", "x"}}}})
 	add(&raceScenario{name: "db0:BLMOVE-served||db1:BLPOP-served", threads: [][][]string{{{"BLMOVE", "kb", "kb2", "LEFT", "LEFT", "0"}}, {{"SELECT", "1"}, {"BLPOP", "kb", "0"}}, {{"RPUSH", "kb", "x"}, {"SELECT", "1"}, {"RPUSH", "kb", "y"}}}})
